@@ -12,7 +12,11 @@ SOURCES = ["find all @/(a)(b)(c)\\3\\2\\1/", "find all @/((a)|b)+c/", "find all 
            # group numbers run across all regex literals of one source: numbering must be atomic per Compile
            "find all @/(a)(b)/ '-' @/(c)(d)/", "find all @/a/ @/(b)\\1/ @/(c)\\2/", "find all @/(a)/\nfind all @/(b)(c)\\3/", "find all @/(a)(b)/ @/\\3/",
            # named loops (their ids come from the generator too), nested in each other
-           "find all at least 1 (letter = c) named cs", "find all at least 1 (at least 1 digit named ds '-') named groups", "find all between 1 and 2 (at least 1 'a' named as 'b') named abs"]
+           "find all at least 1 (letter = c) named cs", "find all at least 1 (at least 1 digit named ds '-') named groups", "find all between 1 and 2 (at least 1 'a' named as 'b') named abs",
+           # unnamed loops directly inside loops: their ids are drawn one after the other from the process-wide source; whatever other goroutines do in between,
+           # the ids of one program must stay distinct
+           "find all at least 1 (maybe 'a' 'b')", "find all @/(a*b)+/", "find all between 2 and 3 (at least 1 'a' 'b')", "find all at least 0 (at most 2 (maybe 'a') 'b') 'c'",
+           "find all at least 1 (at least 1 (maybe 'a') 'b' fewest)"]
 TEXTS = ["abccba", "aabc", "12-34", "(())", "aa bb", "xy", "ab-cd", "abbcc", "1-22-", "aabab"]
 
 
@@ -43,7 +47,7 @@ def run(ctx):
     exe = vh.build_harness(race=True)
     rounds = 3 if quick else 20
     cases = [{"op": "conc", "sources_hex": [vh.hexs(s) for s in SOURCES], "texts_hex": [vh.hexs(t) for t in TEXTS],
-              "goroutines": 8 if quick else 16, "iters": 40 if quick else 200}]
+              "goroutines": 8 if quick else 16, "iters": 100 if quick else 400}]
     ev = 0
     races = 0
     mism = []
